@@ -22,7 +22,8 @@ Inductive wf_sig : rsig -> Prop :=
     wf_sig (RMux h a n d r gc gs fx g).
 
 Definition wf_msg (m : rmsg) : Prop :=
-  wf_attrs (rm_attrs m) /\ NoDup (map rr_eid (rm_recv m)) /\ Forall wf_sig (rm_sigs m).
+  wf_attrs (rm_attrs m) /\ NoDup (map rr_eid (rm_recv m))
+  /\ Forall (fun rc => wf_attrs (rr_attrs rc)) (rm_recv m) /\ Forall wf_sig (rm_sigs m).
 Definition wf_nif (x : rnif) : Prop :=
   wf_attrs (rn_attrs x) /\ NoDup (map rm_eid (rn_msgs x)) /\ Forall wf_msg (rn_msgs x).
 Definition wf_bus (b : rbus) : Prop :=
@@ -45,9 +46,12 @@ Inductive sig_equiv : rsig -> rsig -> Prop :=
     Forall2 (Forall2 sig_equiv) g1 g2 ->
     sig_equiv (RMux h a1 n d r gc gs fx g1) (RMux h a2 n d r gc gs fx g2).
 
+Definition recv_equiv (r1 r2 : rrecv) : Prop :=
+  rr_h r1 = rr_h r2 /\ rr_name r1 = rr_name r2 /\ rr_eid r1 = rr_eid r2 /\ rr_num r1 = rr_num r2
+  /\ rr_id r1 = rr_id r2 /\ Permutation (rr_attrs r1) (rr_attrs r2).
 Definition msg_equiv (m1 m2 : rmsg) : Prop :=
   rm_h m1 = rm_h m2 /\ rm_eid m1 = rm_eid m2 /\ Permutation (rm_attrs m1) (rm_attrs m2)
-  /\ Permutation (rm_recv m1) (rm_recv m2)
+  /\ PermEquiv recv_equiv (rm_recv m1) (rm_recv m2)
   /\ rm_name m1 = rm_name m2 /\ rm_desc m1 = rm_desc m2 /\ rm_static m1 = rm_static m2
   /\ rm_canid m1 = rm_canid m2 /\ rm_id m1 = rm_id m2 /\ rm_size m1 = rm_size m2
   /\ rm_byteorder m1 = rm_byteorder m2 /\ rm_cycle m1 = rm_cycle m2
